@@ -4,6 +4,7 @@ import (
 	"fmt"
 	"go/types"
 	"sort"
+	"strings"
 
 	"golang.org/x/tools/go/ssa"
 )
@@ -109,6 +110,9 @@ func runC20(c *Checker) {
 			bad = fmt.Sprintf("code %#x: %s", code, s.Failed)
 			break
 		}
+		// the answer for a code must not depend on earlier lookups: the
+		// function may not write package-level state (seed C06i: a per-entry
+		// cache that keeps the first code looked up)
 		iv, ok := s.RetN(0).(*IfaceV)
 		if !ok {
 			bad = fmt.Sprintf("code %#x: result %s is not a concrete stream type", code, showVal(s.RetN(0)))
@@ -145,6 +149,11 @@ func runC20(c *Checker) {
 		}
 		nOK++
 	}
+	// the answer for a code must not depend on earlier lookups (seed C06i: a
+	// per-entry cache that keeps the first code looked up): neither the lookup
+	// nor anything it calls stores through a package-level variable
+	gw := globalWrites(lookup)
+	c.check("C20.lookup", "psi:LookupPmtStreamType", "pure: no store through a package-level variable in the lookup or its callees (the answer cannot depend on earlier calls)", len(gw) == 0, strings.Join(gw, "; "))
 	c.check("C20.lookup", "psi:LookupPmtStreamType", "all 256 codes: returns the code, a non-empty description and presentationLagsEbp ∈ {03,04,0F,11,81,87,88}", bad == "", bad)
 	c.floorCheck("C20.lookup codes evaluated", nOK, 256)
 	c.extra["distinct_descriptions"] = len(descs)
